@@ -1,17 +1,33 @@
-import H2.Server.Model
+import H2.Server.Lockstep
 /-! Line-protocol operations of the server area (driver side). -/
 namespace H2.Server.Drv
 open H2.Server
 
 structure State where
   conns : List (String × Srv) := []
+  locks : List (String × Lock) := []
 
 def State.init : State := {}
 
 def State.get (st : State) (id : String) : Option Srv := (st.conns.find? (·.1 == id)).map (·.2)
 
 def State.set (st : State) (id : String) (s : Srv) : State :=
-  { conns := (id, s) :: st.conns.filter (·.1 != id) }
+  { st with conns := (id, s) :: st.conns.filter (·.1 != id) }
+
+def State.getLock (st : State) (id : String) : Lock := ((st.locks.find? (·.1 == id)).map (·.2)).getD {}
+
+def State.setLock (st : State) (id : String) (l : Lock) : State :=
+  { st with locks := (id, l) :: st.locks.filter (·.1 != id) }
+
+/-- run one event through the full model and the lockstep models; returns the printed result -/
+def runEvent (st : State) (id : String) (s : Srv) (ev : Event) (show_ : Srv → Srv → Bool) : State × String :=
+  let r := Server.stepR s ev
+  let l := st.getLock id
+  let l' := l.step s ev r
+  let st := (st.set id r.s).setLock id l'
+  let res := if show_ s r.s then fmtOuts r.out else "undef"
+  let res := if l'.mismatches.length > l.mismatches.length then res ++ " | lockstep-mismatch(" ++ l'.mismatches.getLast! ++ ")" else res
+  (st, res)
 
 def argOf (args : List String) (key : String) : Option String :=
   (args.find? (·.startsWith (key ++ "="))).map fun a => (a.drop (key.length + 1)).toString
@@ -68,7 +84,7 @@ def step (st : State) (args : List String) : State × String :=
                        maxHeaderList := if mhl == 0 then Gen.c_DefaultMaxHeaderListSize else mhl,
                        maxBody := if mrb > 0 then mrb.toNat else 4 * 1024 * 1024 }
     let s : Srv := { cfg := cfg }
-    (st.set id s, fmtOuts (initOuts s))
+    ((st.set id s).setLock id {}, fmtOuts (initOuts s))
   | _ :: id :: op :: rest =>
     match st.get id with
     | none => (st, "bad-op")
@@ -85,8 +101,7 @@ def step (st : State) (args : List String) : State × String :=
           | none => (st, "bad-op")
           | some b =>
             if s.returned then (st, "out gone") else
-            let (s', outs) := Server.step s (.bytes b)
-            (st.set id s', if s'.undefined then "undef" else fmtOuts outs)
+            runEvent st id s (.bytes b) fun _ s' => !s'.undefined
         | _ => (st, "bad-op")
       else if op == "done" then
         match rest with
@@ -100,8 +115,8 @@ def step (st : State) (args : List String) : State × String :=
               let running := (s.strms.any fun x => x.id == sid && x.handlerRunning) ||
                              (s.abandoned.any fun x => x.id == sid)
               if !running then (st, "out no-handler") else
-              let (s', outs) := Server.step s (.done sid resp)
-              (st.set id s', if s'.undefined then "undef" else fmtOuts outs)
+              -- a block the peer's decoder rejects is still printed; what follows is beyond the model
+              runEvent st id s (.done sid resp) fun s s' => !(s'.undefined && !(s'.peerDecBroken && !s.peerDecBroken))
         | _ => (st, "bad-op")
       else if op == "cut" then
         let (s', outs) := Server.step s .cut
